@@ -494,7 +494,20 @@ func (e *enc) enclosingReach(b *ssa.BasicBlock, self *loopInfo) string {
 	var best *loopInfo
 	var bestH *ssa.BasicBlock
 	for h, li := range e.loops {
-		if li == self || !li.blocks[b] {
+		if li == self {
+			continue
+		}
+		// b belongs to one execution of the loop body if it is in the natural loop, or (a block that ends in break/return)
+		// if it is dominated by the body's entry block rather than reached through the header's exit edge
+		in := li.blocks[b]
+		if !in {
+			for _, s := range h.Succs {
+				if li.blocks[s] && s != h && (s == b || s.Dominates(b)) {
+					in = true
+				}
+			}
+		}
+		if !in {
 			continue
 		}
 		if best == nil || len(li.blocks) < len(best.blocks) {
